@@ -1,4 +1,4 @@
-import LitexModel.Ecc.Secded
+import LitexModel.Ecc.Matrix
 import LitexModel.DriverLib
 /-
   Driver for C18.  Pure calls only (the ECC netlists are combinational):
@@ -8,6 +8,9 @@ import LitexModel.DriverLib
     call cover <n> <p>      -> positions            (p >= 1)
     call enc <k> <data>     -> code word as a number (bit 0 = overall parity)
     call dec <k> <en> <w>   -> "<data> <sec> <ded>"  (w = n+1-bit input word as a number)
+    call syn <k> <en> <w>   -> "<syndrome> <flipmask>" decoder internals: syndrome signal, codeword_c ^ codeword (<< 1)
+    call loop <k> <en> <data> <flip> -> "<encoder.o> <data> <sec> <ded>"  (decoder.i = encoder.o ^ flip in one module)
+    call rows <k>           -> generator rows of the model (encVal k (1<<b)), b = 0..k-1
   An empty list is printed as "-".
 -/
 open Litex Litex.Driver Litex.Ecc
@@ -28,6 +31,17 @@ def call (args : List String) : Option String :=
     match k.toNat?, d.toNat? with
     | some k, some d => some (toString (bitsToNat (encode k (natToBits k d))))
     | _, _ => none
+  | ["syn", k, en, w] =>
+    match k.toNat?, en.toNat?, w.toNat? with
+    | some k, some en, some w => some s!"{synVal k (en % 2 == 1) w} {flipMaskVal k (en % 2 == 1) w}"
+    | _, _, _ => none
+  | ["loop", k, en, d, f] =>
+    match k.toNat?, en.toNat?, d.toNat?, f.toNat? with
+    | some k, some en, some d, some f =>
+      let r := loopback k (en % 2 == 1) d f
+      some s!"{r.1} {bitsToNat r.2.o} {b2n r.2.sec} {b2n r.2.ded}"
+    | _, _, _, _ => none
+  | ["rows", k] => k.toNat?.map fun k => showList (mEncRows k)
   | ["dec", k, en, w] =>
     match k.toNat?, en.toNat?, w.toNat? with
     | some k, some en, some w =>
